@@ -8,6 +8,7 @@ from harness.lib.core import VERIF, Ctx, lean_lock, run_driver, shrink_ops
 from harness.extract import filter as x_filter
 from harness.extract import forward as x_forward
 from harness.extract import forward_arp as x_forward_arp
+from harness.extract import forward_route as x_forward_route
 from harness.rigs import net08 as rnet
 from harness.rigs import route as rroute
 
@@ -47,7 +48,12 @@ MANIFEST = {
             "resolve_outbound_network_interface become programs over the stateful ARP look-ups (order kept) and the model's "
             "resolveDetails / resolveOut are proved to compute exactly what these programs compute for every route table, ARP cache, "
             "destination and fuel (C08_gen_session_resolve_*); a concrete router shows an ARP-first resolution choosing another next "
-            "hop (C08_session_resolve_countermodel). Float metrics: on "
+            "hop (C08_session_resolve_countermodel). THE ROUTER'S FORWARDING STEP is translated: Router.process_frame and route_frame "
+            "become programs (Gen/ForwardRoute.lean: broadcast guard, own-address loop, the two ARP look-ups in source order, "
+            "MAC / interface / enabled / on-link tests, TTL decrement, its test, the two header writes, send, find_best_route + the "
+            "next-hop look-ups) and the model's routerProcess is proved to compute exactly what they compute for every state, "
+            "route table, ARP cache, frame and fuel (C08_gen_route_frame_process); from the programs alone: nothing is sent "
+            "without a decrement tested < 1 and both header writes (C08_gen_route_frame_hops). Float metrics: on "
             "A switch re-points a MAC to the port it was last seen on, whatever its table held (learning is unconditional and precedes "
             "the table read); R-net re-cables hosts at run time. On finite metrics the float loop is the integer loop; for every table the selected entry has no strictly cheaper rival of its "
             "prefix, and for every nan-free (= constructible: RouteEntry refuses NaN) table it is the minimum in -inf <= finite <= inf. Tie: constants, comparison "
@@ -74,7 +80,8 @@ MODULES = ["PrimaiteModel.Props.C08", "PrimaiteModel.Props.C08Forward", "Primait
            "PrimaiteModel.Props.C08Addressee", "PrimaiteModel.Props.C08Liveness", "PrimaiteModel.Props.C08FuelMono",
            "PrimaiteModel.Props.C08Termination", "PrimaiteModel.Props.C08RouteOps", "PrimaiteModel.Props.C08Cold",
            "PrimaiteModel.Props.C08ColdRouter", "PrimaiteModel.Props.C08HostHop", "PrimaiteModel.Props.C08Metric",
-           "PrimaiteModel.Props.C08SwitchLearn", "PrimaiteModel.Props.C08ColdApp", "PrimaiteModel.Props.C08ArpGen", "PrimaiteModel.Props.C08SessionGen"]
+           "PrimaiteModel.Props.C08SwitchLearn", "PrimaiteModel.Props.C08ColdApp", "PrimaiteModel.Props.C08ArpGen", "PrimaiteModel.Props.C08SessionGen",
+           "PrimaiteModel.Props.C08RouteGen"]
 EXE = "drv_c08"
 
 
@@ -406,6 +413,7 @@ def run(ctx: Ctx):
     with lean_lock():
         ctx.extract("Forward", x_forward.emit)
         ctx.extract("ForwardArp", x_forward_arp.emit)  # ARP look-ups / add entry / send request / handlers, translated
+        ctx.extract("ForwardRoute", x_forward_route.emit)  # Router.process_frame / route_frame, translated into programs
         ctx.extract("Filter", x_filter.emit)  # C06's extractor: firewall entry points (tied by C08_gen_firewall)
         ctx.prove(MODULES, exes=[EXE], clean=False, leanchecker=ctx.thorough)
     ctx.cov["rule"] = ("route cases = (surface in {RouteTable api, Router.from_config}, table, default, interleaved queries), non-trivial "
